@@ -146,6 +146,34 @@ def records(ctx, rng, nid):
             out = {'raised': type(e).__name__ + ':' + str(e)[:60]}
         recs.append({'id': 'same-%d' % next(nid), 'op': 'same', 'site': 'Integration.%s' % ic.FUNCS[P],
                      'in': {'law': 'ReferenceSizeInvariance', 'c': common.rat(c), 'P': P, 'mode': case['mode'] + '/bottleneck', 'frozen': case['frozen']}, 'out': out})
+    # (b4) durations that are a whole number of steps of the time-step rule (T = k * dt): the number of steps must not depend on how
+    # k*dt/dt happens to round in the rescaled units
+    rx = random.Random(ctx.seed + 3304)
+    for P in (1, 2, 3):
+        for mode in (('const',) if ctx.quick else ('const', 'funcconst')):
+            for ksteps in ((2, 3) if ctx.quick else (1, 2, 3, 5, 8)):
+                case = ic.gen_case(rx, P, kind='normal', n={1: 12, 2: 8, 3: 6}[P], mode=mode)
+                case['t0'] = 0.0
+                case['layout'] = 'C'
+                xx = rand_grid(random.Random(case['grid_seed']), case['n'], case['grid_kind'])
+                phi1 = rand_density(random.Random(case['phi_seed']), [case['n']] * P)
+                dts = []
+                for k in range(1, P + 1):
+                    p_ = case['par'][k - 1]
+                    ms = [p_['mig'][j]['c0'] for j in range(P) if j != k - 1] or [0]
+                    dts.append(Integration._compute_dt(np.diff(xx), p_['nu']['c0'], ms, p_['gamma']['c0'], p_['h']['c0']))
+                T = ksteps * min(dts)
+                f = getattr(Integration, ic.FUNCS[P])
+                for c in (0.05, 0.1, 0.2, 1.5, 3.0, 7.0, 13.0):
+                    try:
+                        x = f(phi1.copy(), xx, T * c, **_kwargs(case, scale=c))
+                        y = f(phi1.copy(), xx, T, **_kwargs(case))
+                        out = {'x': common.rats(x.ravel()), 'y': common.rats(y.ravel())}
+                    except Exception as e:
+                        out = {'raised': type(e).__name__ + ':' + str(e)[:60]}
+                    recs.append({'id': 'same-%d' % next(nid), 'op': 'same', 'site': 'Integration.%s' % ic.FUNCS[P],
+                                 'in': {'law': 'ReferenceSizeInvariance', 'c': common.rat(c), 'P': P, 'mode': case['mode'] + '/whole-steps', 'frozen': case['frozen'],
+                                        'ksteps': ksteps}, 'out': out})
     # (c) whole models built from the public API: equilibrium, size change, split, migration, selection, admixture
     for r in range(8 if ctx.quick else 60):
         recs.append(model_record(rng, nid))
